@@ -138,9 +138,64 @@ def persp_probe(ctx, seed):
         ctx.count('persp:ok:' + front + ':' + kind)
 
 
+def power_probe(ctx, seed, tight=False):
+    """element-wise power with exponent arrays: base broadcast against the exponents (scalar or lower-dimensional base), entries
+    with p == q next to other exponents, function and method spellings on variables, slices and affine expressions; every
+    accepted inequality |a_i|**(p_i/q_i) <= y_i must hold at the returned point and the objective must be the sum of y"""
+    import rsome as rso
+    from rsome import ro
+    r = np.random.default_rng(seed)
+    ctx.search_cases += 1; ctx.evaluations += 1
+    shape_kind = str(r.choice(['same', 'scalar-base', 'row-vs-column']))
+    k = int(r.integers(2, 4))
+    pv = r.choice([1, 1, 2, 3, 3, 5], k); qv = np.array([int(r.choice([1, q_])) if q_ > 1 else 1 for q_ in r.choice([1, 1, 2], k)])
+    qv = np.minimum(qv, pv)
+    if not any(p_ == q_ for p_, q_ in zip(pv, qv)):
+        pv[int(r.integers(k))] = 1; qv = np.minimum(qv, pv)
+    spelling = str(r.choice(['function', 'method-on-variable', 'method-on-slice', 'method-on-affine']))
+    if shape_kind == 'same':
+        xval = r.choice([-1.5, -0.5, 0.5, 1.25, 2.0], k); P, Q = pv, qv
+    elif shape_kind == 'scalar-base':
+        xval = np.array(float(r.choice([-1.5, 0.5, 1.25]))); P, Q = pv, qv
+    else:
+        xval = r.choice([-1.5, -0.5, 0.5, 1.25], 2); P, Q = pv.reshape(k, 1), qv.reshape(k, 1)
+    scale = float(r.choice([1.0, 2.0])) if spelling in ('function', 'method-on-affine') else 1.0
+    shift = float(r.choice([0.0, -1.0])) if spelling in ('function', 'method-on-affine') else 0.0
+    case = {"power_seed": seed, "shapes": shape_kind, "p": np.asarray(P).tolist(), "q": np.asarray(Q).tolist(), "x": np.asarray(xval).tolist(), "spelling": spelling}
+    out_shape = np.broadcast(xval, P).shape
+    try:
+        with C.quiet():
+            m = ro.Model(); x = m.dvar(xval.shape); y = m.dvar(out_shape)
+            m.min(y.sum())
+            if spelling == 'function':
+                e = rso.power(scale * x + shift, P, Q)
+            elif spelling == 'method-on-variable':
+                e = x.power(P, Q)
+            elif spelling == 'method-on-slice':
+                e = (x[:] if xval.ndim else x).power(P, Q)
+            else:
+                e = (scale * x + shift).power(P, Q)
+            m.st(e <= y); m.st(x == xval); m.st(y >= 0, y <= 1e4)
+            val = C.solve_model(m)
+            xs, ys = np.asarray(x.get(), dtype=float), np.asarray(y.get(), dtype=float)
+    except C.SkipCase:
+        ctx.count('power:skipped'); return
+    except Exception as ex:
+        ctx.count('power:raises:' + type(ex).__name__); return
+    lhs = np.abs(scale * xs + shift) ** (np.asarray(P, dtype=float) / np.asarray(Q, dtype=float)) + np.zeros(out_shape)
+    if float((lhs - ys).max()) > 1e-5 * (1 + float(np.abs(lhs).max())):
+        ctx.hit('constraint-violated:power', {"lhs": lhs.tolist(), "y": ys.tolist()}, case); return
+    if tight and float(np.abs(ys - lhs).max()) > 2e-4 * (1 + float(np.abs(lhs).max())):
+        # (C07) minimising sum(y) must bring every y_i down to |a_i|**(p_i/q_i)
+        ctx.hit('power-not-tight', {"lhs": lhs.tolist(), "y": ys.tolist()}, case); return
+    ctx.count('power:ok:' + shape_kind + ':' + spelling)
+
+
 def run(ctx):
     for k in range(ctx.n(24, 300)):
         persp_probe(ctx, int(ctx.rng.integers(2 ** 31)))
+    for k in range(ctx.n(40, 600)):
+        power_probe(ctx, int(ctx.rng.integers(2 ** 31)))
     # correspondence: the Lean atom encoders vs the real do_math() on random single- and multi-atom models (exact)
     C.run_difftest(ctx, 'test_atoms_soc.py', ctx.n(150, 3000), 'atom encodings A/M/I/E/S/Q/rsocone, bound folding, vtype vector')
     C.run_difftest(ctx, 'test_atoms_exp.py', ctx.n(120, 2500), 'atom encodings X/L/P/F/pexp/plog/KL')
@@ -160,6 +215,10 @@ def replay(rp):
     if 'persp_seed' in case:
         ctx = C.Ctx('C06', 'quick', 0)
         persp_probe(ctx, case['persp_seed'])
+        return {"hits": [(h['key'], h['detail']) for h in ctx.hits], "fails": bool(ctx.hits)}
+    if 'power_seed' in case:
+        ctx = C.Ctx('C06', 'quick', 0)
+        power_probe(ctx, case['power_seed'])
         return {"hits": [(h['key'], h['detail']) for h in ctx.hits], "fails": bool(ctx.hits)}
     if 'desc' not in case:
         return {"fails": True, "case": case}
